@@ -264,6 +264,20 @@ theorem converge_partial_fragment_ignored (C : Crypto) (L : Loc) (e : Ep) (m : H
   have h1 : resetFrag e.ctx m = e.ctx := by simp [resetFrag, hsame, hoff]
   simp [h0, h1, hfrag, hnc, withCtx]
 
+/-- converge_partial (4a'): a fragment with offset 0 *restarts* reassembly whatever the buffer held —
+also for the same `message_seq` (a retransmitted flight that the path re-fragmented differently after
+the tail of the first transmission was lost must not be blocked by the stale partial message). -/
+theorem converge_partial_first_fragment_restarts (C : Crypto) (L : Loc) (e : Ep) (m : HsMsg)
+    (hfrag : m.body.length < m.totalLen) (hoff : m.fragOff = 0) (hp : e.ctx.postHvr = false) :
+    acceptMsg C L e m = ok (withCtx e { e.ctx with incomplete := m.body, incompleteSeq := m.msgSeq }) := by
+  unfold acceptMsg
+  have h0 : clearPostHvr e = e := by simp [clearPostHvr, hp]
+  have h1 : resetFrag e.ctx m = { e.ctx with incomplete := [], incompleteSeq := m.msgSeq } := by simp [resetFrag, hoff]
+  simp only [h0, h1]
+  rw [if_pos (by omega), if_neg (by simp [hoff])]
+  simp only [appendFrag, List.nil_append]
+  simp [hfrag]
+
 /-- converge_partial (4b): two fragments delivered in order reassemble to the whole message: the
 handler runs on `a ++ b` with the transcript entry of the unfragmented message. -/
 theorem converge_partial_fragments_reassemble (C : Crypto) (L : Loc) (e : Ep) (typ msgSeq : Nat) (a b : Bytes)
